@@ -106,10 +106,14 @@ fn run(ctx: &Ctx) -> Run {
         Some(d) => (std::fs::read_to_string(format!("{d}/lookups.tsv")).unwrap_or_default(), std::fs::read_to_string(format!("{d}/geometry.tsv")).unwrap_or_default()),
         None => (String::new(), String::new()),
     };
-    let frozen_l = lookups.lines().filter(|l| l.starts_with("L ")).count();
-    let frozen_g = geometry.lines().filter(|l| l.starts_with("G ")).count();
-    let llines: Vec<&str> = lookups.lines().chain(extra_l.lines()).filter(|l| l.starts_with("L ")).collect();
-    let glines: Vec<&str> = geometry.lines().chain(extra_g.lines()).filter(|l| l.starts_with("G ")).collect();
+    // second frozen table: inputs at the limits of the valid domain (exact poles, the antimeridian written both ways, whole
+    // turns, signed zeros, the smallest magnitudes), recorded from the same reference release (golden/README.md)
+    let limits_l = std::fs::read_to_string(dir.join("limits").join("lookups.tsv")).unwrap_or_default();
+    let limits_g = std::fs::read_to_string(dir.join("limits").join("geometry.tsv")).unwrap_or_default();
+    let frozen_l = lookups.lines().chain(limits_l.lines()).filter(|l| l.starts_with("L ")).count();
+    let frozen_g = geometry.lines().chain(limits_g.lines()).filter(|l| l.starts_with("G ")).count();
+    let llines: Vec<&str> = lookups.lines().chain(limits_l.lines()).chain(extra_l.lines()).filter(|l| l.starts_with("L ")).collect();
+    let glines: Vec<&str> = geometry.lines().chain(limits_g.lines()).chain(extra_g.lines()).filter(|l| l.starts_with("G ")).collect();
     let threads = ctx.threads;
     let tie_in = ctx.tier == Tier::Thorough;
     let mut out = parallel(threads, |w, run| {
